@@ -151,6 +151,9 @@ AcceptX2F(e) ==
   IN /\ \A i \in 1..5 : ValIs(e.o[i], b)
      /\ e.o[5][3] = 0
      /\ (("lossy" \in DOMAIN e) => ValIs(e.lossy, b))
+     /\ (("from" \in DOMAIN e) => ValIs(e.from, b))           \* From<fixed> for f32 / f64 (small types): the same value
+\* LossyFrom<integer> for f32 / f64: an integer is a fixed-point value without fractional bits
+AcceptI2F(e) == ValIs(e.lossy, FixToFloatBits(ZJ(e.a), 0, e.ft))
 
 (* ------------------------------ C10 ------------------------------------ *)
 AcceptCodec(e) ==
@@ -259,6 +262,7 @@ Accept(e, P) ==
     [] e.k = "pred"  -> AcceptPred(e)
     [] e.k = "f2x"   -> AcceptF2X(e)
     [] e.k = "x2f"   -> AcceptX2F(e)
+    [] e.k = "i2f"   -> AcceptI2F(e)
     [] e.k = "codec" -> AcceptCodec(e)
 
 (***************************************************************************)
